@@ -10,7 +10,8 @@ RULE = (
     'first waiting for the other buses; no user re-dispatch after completion. The harness reads status + completion '
     'signal of every event at every trace record (an observation any user code could make) and at every await return; '
     'once an event was observed complete, a fingerprint (status, result ids, statuses, value/error identities) is '
-    'compared at every later record. Also: an external await must not return before the handlers of every bus the '
+    'compared at every later record (value content included: actors call every result accessor, the flat list / dict views among them, on '
+    'completed events whose handlers returned lists and dicts - a view must not rewrite a recorded value). Also: an external await must not return before the handlers of every bus the '
     'event was enqueued on have finished. Non-trivial = some event was forwarded to a bus whose handler had not finished '
     'when the handlers of the first bus had; distinct by canonical JSON.'
 )
@@ -27,7 +28,7 @@ def _timeouts(draw):
     return {str(t): draw(_st.sampled_from([0.13, 0.27, 0.41, 0.77])) for t in range(4) if draw(_st.booleans())}
 
 
-P = Profile(timeouts=_timeouts(), min_buses=2, max_buses=3, fwd=1.0, typed_fwd=True, watch=True, actor_ops=['disp', 'disp', 'dispany', 'sleep', 'await', 'await', 'status', 'yield'], maxdepth=[1, 2], wild=0.4, par=0.15, raises=0.1, durs=[0.01, 0.05, 0.1, 0.11, 0.25, 0.5])
+P = Profile(timeouts=_timeouts(), min_buses=2, max_buses=3, fwd=1.0, typed_fwd=True, watch=True, actor_ops=['disp', 'disp', 'dispany', 'sleep', 'await', 'await', 'status', 'yield', 'acc'], acc_names=['event_result', 'event_results_list', 'event_results_by_handler_name', 'event_results_by_handler_id', 'event_results_flat_list', 'event_results_flat_dict'], rets=['idx', 'list', 'list', 'dict', 'dict', 'none', 'str'], maxdepth=[1, 2], wild=0.4, par=0.15, raises=0.1, durs=[0.01, 0.05, 0.1, 0.11, 0.25, 0.5])
 
 
 def budget(tier):
@@ -68,6 +69,13 @@ def classes(F):
         cl.append('downstream-bus-finishes-later')
     how = {v['how'] for v in F.out.get('observed_complete', {}).values()}
     cl += ['observed:' + h for h in sorted(how)]
+    oc = F.out.get('observed_complete', {})
+    for r in F.tr:
+        if r['k'] == 'a-acc':
+            cl.append('accessor-call:' + r['name'])
+            rows = [x for x in r['rows'] if x['st'] == 'completed' and x['res'].__class__ is str and x['res'][:1] in '[{']
+            if r['name'].startswith('event_results_flat') and len(rows) >= 2:
+                cl.append('flat-accessor-merging>=2-container-results')
     return cl
 
 
